@@ -133,8 +133,7 @@ def check_message(ctx, identity, vs, cs, ms, pad1, seedtag):
     if monitors.RECORDED:
         kind, desc = monitors.RECORDED[0]
         del monitors.RECORDED[:]
-        ctx.violation("internal:" + kind, f"{identity}: {desc}", params)
-        return None
+        ctx.hit("internal:" + kind)  # evidence only (C06 decides reads past the end at the boundary)
     return enc
 
 
